@@ -6,6 +6,9 @@ CHECKERS = dict(C18_rt.CHECKERS)
 
 
 def run(ctx):
+    from vf.pyvc import crosscheck_sym
+
+    crosscheck_sym.guard(ctx)  # the symbolic-shape tensor layer against real torch, before the clauses that rest on it
     api.run_vcs(ctx, C18_vc.mvn_p_vcs(ctx), {"C18.P.mvn_state_is_additive": "real MeanVarianceNormalization.accumulate source for SYMBOLIC numbers of frames and coefficients: count, sum and sum of squares grow by exactly the frames' count, sum and sum of squares, from zero on the first call - so statistics over any partition, in any order, are the pooled sums",
                                              "C18.P.mvn_store_formula": "real MeanVarianceNormalization.store source for symbolic statistics: raises iff too few frames; mean = sum / count, std = sqrt(max(sumsq / count - mean^2 [Bessel: * count / (count - 1)], 0)); statistics dropped iff asked"})
     api.run_vcs(ctx, C18_vc.p_vcs(ctx), {"C18.P.return_recurrence": "real time_distributed_return source for SYMBOLIC horizon and batch size: R[i] = r[i] + gamma R[i+1] for i < T-1 and R[T-1] = r[T-1] (matrix product = partial sums, pow recurrence; two inductions over the summation index), both layouts, gamma = 0 short-cut"})
